@@ -5,6 +5,7 @@ import (
 	"fmt"
 	"regexp"
 	"strings"
+	"time"
 
 	"verif/internal/model"
 	"verif/internal/orch"
@@ -18,7 +19,7 @@ func (*C09) ID() string     { return "C09" }
 func (*C09) Level() string  { return "exploration" }
 func (*C09) Engine() string { return "CONC" }
 func (*C09) Rule() string {
-	return "a probe call (any format, any severity incl. an unregistered custom level, groups, errors, multi-line message, caller info from one fixed call site, explicit timestamp through WriteThru) is issued in the pristine world process and again after seeded histories of 0-200 other calls on other loggers, formats, severities and 1-4 caller tasks; the pool tape hands the probe a fresh formatting context, the most recently recycled one or an older one, and evicts at random; no configuration change in between; byte equality of the probe's payloads is demanded; distinct = hash of (probe, history); non-trivial = the probe was formatted in a recycled context after a non-empty history"
+	return "a probe call (any format, any severity incl. an unregistered custom level, groups, errors, multi-line message, caller info from one fixed call site, explicit timestamp through WriteThru) is issued in the pristine world process and again after seeded histories of 0-200 other calls on other loggers, formats, severities and 1-4 caller tasks; the pool tape hands the probe a fresh formatting context, the most recently recycled one or an older one, and evicts at random; no configuration change in between; byte equality of the probe's payloads is demanded; every sixth episode is a twin episode: two loggers with the same name are made and configured by the same calls, one prints records between the configuration calls and the other stays silent, then both get the same probe and the bytes must be equal; distinct = hash of (probe, history); non-trivial = the probe was formatted in a recycled context after a non-empty history"
 }
 
 func (*C09) Plan(tier string) orch.Plan {
@@ -30,6 +31,9 @@ func (*C09) Plan(tier string) orch.Plan {
 }
 
 func (p *C09) Gen(seed uint64, i int, tier string) *scen.Scenario {
+	if i%6 == 5 {
+		return c09Twin(seed, i)
+	}
 	r := scen.NewRng(scen.Mix(seed, scen.HashString("C09"), uint64(i)))
 	sc := &scen.Scenario{Property: "C09", Engine: "CONC", Seed: scen.Mix(seed, 109, uint64(i)) >> 12}
 	sc.World.Isolated = true
@@ -175,6 +179,179 @@ func (p *C09) Gen(seed uint64, i int, tier string) *scen.Scenario {
 	return sc
 }
 
+// c09Twin: two loggers get the same name, the same options and the same sequence of configuration
+// calls; one of them prints records between those calls, the other prints nothing. Then both are given
+// the same probe: by C09 the bytes are a function of the call and the logger's configuration, so they
+// must be equal (anything a logger keeps from a record it printed under an earlier configuration shows).
+func c09Twin(seed uint64, i int) *scen.Scenario {
+	r := scen.NewRng(scen.Mix(seed, scen.HashString("C09twin"), uint64(i)))
+	sc := &scen.Scenario{Property: "C09", Engine: "HIST", Seed: scen.Mix(seed, 1090, uint64(i)) >> 12, Note: "twin"}
+	sc.World.Isolated = true
+	sc.World.Mode = scen.Pick(r, []string{"production", "testing"})
+	sc.World.Flags = []string{"LnoInterrupt"}
+	if r.Bool() {
+		sc.World.NoFlags = []string{"Lcaller"}
+	}
+	sc.World.Clock = scen.Clock{TickNs: 1, MinStep: 40, MaxStep: 400}
+	cfg := func() scen.Op {
+		switch r.Intn(8) {
+		case 0, 1:
+			return scen.Op{Op: "set", Kind: "json", B: []bool{r.Bool()}}
+		case 2, 3:
+			return scen.Op{Op: "set", Kind: "color", B: []bool{r.Bool()}}
+		case 4:
+			return scen.Op{Op: "set", Kind: "utc", B: []bool{r.Bool()}}
+		case 5:
+			return scen.Op{Op: "set", Kind: "timefmt", S: []string{scen.Pick(r, []string{time.RFC3339Nano, time.Kitchen, "2006-01-02 15:04:05.000 Z07:00"})}}
+		case 6:
+			return scen.Op{Op: "set", Kind: "level", Lvl: scen.Pick(r, []int{model.Always, model.Trace})}
+		}
+		return scen.Op{Op: "set", Kind: "args", Args: []scen.Arg{{K: "key", S: fmt.Sprintf("own%d", r.Intn(5))}, {K: "i", I: int64(r.Intn(1000))}}}
+	}
+	var opts []scen.Op
+	for k := r.Intn(3); k > 0; k-- {
+		o := cfg()
+		o.Op = ""
+		opts = append(opts, o)
+	}
+	for _, id := range []int{1, 2} {
+		op := scen.Op{Op: "new_root", R: id, Name: "tw", Named: true, Opts: []scen.Op{{Kind: "writer", W: id}, {Kind: "errwriter", W: id}, {Kind: "level", Lvl: model.Always}}}
+		op.Opts = append(op.Opts, opts...)
+		sc.Setup = append(sc.Setup, op)
+	}
+	sevs := []int{model.Error, model.Warn, model.Info, model.Debug, model.Trace, model.Always, model.OK, model.Success, model.Fail}
+	tk := 0
+	records := func(n int) {
+		for ; n > 0; n-- {
+			tk++
+			sev := scen.Pick(r, sevs)
+			op := scen.Op{Op: "log", L: 1, Entry: scen.Pick(r, []string{sevEntryName[sev], "LogAttrs"}), Lvl: sev, Msg: "h" + tok(tk), Tok: tok(tk)}
+			for q := r.Intn(3); q > 0; q-- {
+				op.Args = append(op.Args, scen.Arg{K: "attr", Key: fmt.Sprintf("k%d", r.Intn(9)), Items: []scen.Arg{{K: "i", I: int64(r.Intn(1000))}}})
+			}
+			sc.Setup = append(sc.Setup, op)
+		}
+	}
+	records(r.Range(1, 3))
+	for k := r.Range(1, 4); k > 0; k-- {
+		c := cfg()
+		for _, id := range []int{1, 2} {
+			c2 := c
+			c2.L = id
+			sc.Setup = append(sc.Setup, c2)
+		}
+		records(r.Intn(3))
+	}
+	probe := scen.Op{Op: "write_thru", Kind: "pc", Probe: true,
+		Lvl: scen.Pick(r, []int{model.Error, model.Warn, model.Info, model.Debug, model.Trace, model.Always, model.OK, model.Fail}),
+		T:   &scen.TimeSpec{S: 1600000000 + int64(r.Intn(100000000)), Ns: int64(r.Intn(1e9)), Zone: scen.Pick(r, []string{"UTC", "+02:00"})},
+		Msg: scen.Pick(r, []string{"probe message", "probe first line\nsecond line", "p"}),
+	}
+	for q := r.Intn(4); q > 0; q-- {
+		probe.Args = append(probe.Args, scen.Arg{K: "attr", Key: fmt.Sprintf("p%d", q), Items: []scen.Arg{{K: scen.Pick(r, []string{"i", "s", "b", "dur"}), I: int64(r.Intn(1000)), S: "v"}}})
+	}
+	for _, id := range []int{2, 1} {
+		pr := probe
+		pr.L = id
+		sc.Setup = append(sc.Setup, pr)
+	}
+	return sc
+}
+
+// c09TwinWellFormed: both loggers are made and configured by the same calls, only logger 1 prints
+// before the probes, the two probes differ in the logger only.
+func c09TwinWellFormed(sc *scen.Scenario) bool {
+	var cfg [3][]string
+	var probes [3]string
+	seenProbe := false
+	for i := range sc.Setup {
+		op := sc.Setup[i]
+		switch {
+		case op.Probe:
+			if op.Op != "write_thru" || op.L < 1 || op.L > 2 || probes[op.L] != "" || op.T == nil {
+				return false
+			}
+			seenProbe = true
+			l := op.L
+			op.L = 0
+			probes[l], _ = jsonOf(&op)
+		case seenProbe:
+			return false
+		case op.Op == "log":
+			if op.L != 1 {
+				return false
+			}
+		case op.Op == "new_root":
+			if op.R < 1 || op.R > 2 || len(op.Opts) < 3 || op.Opts[0].W != op.R || op.Opts[1].W != op.R {
+				return false
+			}
+			r := op.R
+			op.R = 0
+			op.Opts = op.Opts[2:]
+			j, _ := jsonOf(&op)
+			cfg[r] = append(cfg[r], j)
+		case op.Op == "set":
+			if op.L < 1 || op.L > 2 {
+				return false
+			}
+			l := op.L
+			op.L = 0
+			j, _ := jsonOf(&op)
+			cfg[l] = append(cfg[l], j)
+		default:
+			return false
+		}
+	}
+	return probes[1] != "" && probes[1] == probes[2] && len(cfg[1]) > 0 && strings.Join(cfg[1], "|") == strings.Join(cfg[2], "|") && len(sc.Tasks) == 0 && len(sc.Tail) == 0
+}
+
+func c09TwinCheck(sc *scen.Scenario, run *orch.Run) []orch.Violation {
+	var out []orch.Violation
+	ops := indexOps(run)
+	var w [3][]scen.Event
+	var probe *scen.Op
+	hist := 0
+	for i := range sc.Setup {
+		op := &sc.Setup[i]
+		o := ops[opKey("setup", 0, i+1)]
+		if o == nil {
+			continue
+		}
+		if o.Panic != nil {
+			out = append(out, orch.Violation{Rule: "C09.panic", Witness: "twin " + op.Op, Detail: o.Panic.S})
+		}
+		if op.Op == "log" {
+			hist++
+		}
+		if op.Probe && op.L >= 1 && op.L <= 2 {
+			w[op.L] = o.Writes
+			probe = op
+		}
+	}
+	if probe == nil {
+		return out
+	}
+	if len(w[1]) != len(w[2]) {
+		return append(out, orch.Violation{Rule: "C09.count", Witness: "twin", Detail: fmt.Sprintf("the probe caused %d writes on the logger that had printed before and %d on its silent twin", len(w[1]), len(w[2]))})
+	}
+	for k := range w[1] {
+		a, b := heapAddrRe.ReplaceAll(w[2][k].P, []byte("0xADDR")), heapAddrRe.ReplaceAll(w[1][k].P, []byte("0xADDR"))
+		if !bytes.Equal(a, b) {
+			d := 0
+			for d < len(a) && d < len(b) && a[d] == b[d] {
+				d++
+			}
+			format := "?"
+			if s := classifyShape(a); s >= 0 {
+				format = fmtNames[s]
+			}
+			out = append(out, orch.Violation{Rule: "C09.bytes", Witness: "twin format=" + format,
+				Detail: fmt.Sprintf("two loggers made and configured by the same calls give different bytes for the same call (severity %s, fixed timestamp and call site); one of them had printed %d records between the configuration calls: first difference at byte %d\n silent twin: %.400q\n the other:  %.400q", model.LevelName(probe.Lvl), hist, d, a, b)})
+		}
+	}
+	return dedupe(out)
+}
+
 // c09Near is an instant for a history record given through WriteThru: unrelated to the probe's, or
 // the very same instant in another zone, or in the same second, or a little earlier or later.
 func c09Near(r *scen.Rng, p *scen.TimeSpec) *scen.TimeSpec {
@@ -223,6 +400,9 @@ func hasAddresses(as []scen.Arg) bool {
 }
 
 func (p *C09) WellFormed(sc *scen.Scenario) bool {
+	if sc.Note == "twin" {
+		return c09TwinWellFormed(sc)
+	}
 	var pr *scen.Op
 	n := 0
 	for i := range sc.Setup {
@@ -281,6 +461,9 @@ func (p *C09) Check(sc *scen.Scenario, run *orch.Run, env *orch.Env) []orch.Viol
 	}
 	if worldDied(run) {
 		return []orch.Violation{{Rule: "C09.terminated", Witness: "world", Detail: fmt.Sprintf("world ended early exit=%d timeout=%v stderr=%.300q", run.ExitCode, run.TimedOut, lastLines(run.Stderr, 300))}}
+	}
+	if sc.Note == "twin" {
+		return append(out, c09TwinCheck(sc, run)...)
 	}
 	ops := indexOps(run)
 	var pristine []scen.Event
@@ -369,6 +552,15 @@ func minInt(a, b int) int {
 func (p *C09) Classify(sc *scen.Scenario, run *orch.Run) (string, bool) {
 	b, _ := jsonMarshal(sc.Setup)
 	h := scen.HashString(string(b))
+	if sc.Note == "twin" {
+		n := 0
+		for i := range sc.Setup {
+			if sc.Setup[i].Op == "log" {
+				n++
+			}
+		}
+		return fmt.Sprintf("twin-%x", h), n > 0
+	}
 	n := 0
 	for _, t := range sc.Tasks {
 		n += len(t.Ops)
